@@ -589,16 +589,12 @@ Section Resolver.
     | [] => []
     | (rq, parent) :: rest =>
         let tail := edges_of_info ids to rest in
-        if vkey_eqb parent vkey_zero then
-          match ids_get ids (vk_name root) with
-          | Some from => (from, to, rq_ver rq, rq_type rq) :: tail
-          | None => tail
-          end
-        else
-          match ids_get ids (vk_name parent) with
-          | Some from => (from, to, rq_ver rq, rq_type rq) :: tail
-          | None => tail
-          end
+        (* a zero parent stands for the root; a parent whose package has no node is skipped *)
+        let key := if vkey_eqb parent vkey_zero then vk_name root else vk_name parent in
+        match ids_get ids key with
+        | Some from => (from, to, rq_ver rq, rq_type rq) :: tail
+        | None => tail
+        end
     end.
 
   Fixpoint add_edges (st : state) (all_ids todo : list (bytes * nat)) : res (list (nat * nat * bytes * deptype)) :=
